@@ -704,7 +704,11 @@ var $makeSlice = (typ, length, capacity = length) => {
 
 var $structTypes = {};
 var $structType = (pkgPath, fields) => {
-    var typeKey = $mapArray(fields, f => { return f.name + "," + f.typ.id + "," + f.tag; }).join("$");
+    // Two struct types are identical only if corresponding fields also agree in
+    // being embedded, and an unexported field name belongs to its package.
+    var typeKey = $mapArray(fields, f => {
+        return f.name + "," + f.typ.id + "," + f.tag + "," + (f.embedded ? "e" : "") + "," + (f.exported ? "" : pkgPath);
+    }).join("$");
     var typ = $structTypes[typeKey];
     if (typ === undefined) {
         var string = "struct { " + $mapArray(fields, f => {
